@@ -33,22 +33,23 @@ CHECKS = {
             "proxy symbolic execution of the real lena code over z3 reals with NRA validity queries "
             "(engine R, verif/symreal.py) and " + CH),
     "C19": ("2/C19",
-            "histories of runs of the full output chain over an in-memory file system, converters and "
-            "template environment: per run data/template change bits and a 4-bit deletion set are symbolic; "
+            "histories of runs of the full output chain (one pipeline object reused or rebuilt per run) over "
+            "an in-memory file system, converters and template environment: per run data/template change bits and a 4-bit deletion set are symbolic; "
             "after every run the content chain csv->tex->pdf->png must be consistent with the current data "
             "and template, unchanged runs must write/convert nothing, output.changed must be reported.",
             "the model of the file system/converters (pdf = PDF(tex|csv), png = PNG(pdf)); one known "
             "finding carved out (known_findings.json).", CH),
     "C20": ("2/C20",
-            "clause 3 only: 45 public entry points with symbolic selectors over valid, boundary and "
+            "clause 3 only: 47 public entry points (incl. static-context error paths of Sequence/Source/Split) with symbolic selectors over valid, boundary and "
             "ill-typed arguments are executed symbolically; no path may end in NameError, "
             "UnboundLocalError or AttributeError on a lena module.",
             "clauses 1-2 (names of __all__, import of a single subpackage) are finite import-configuration "
             "enumerations with no symbolic dimension: NOT decided by this technique and not claimed.", CH),
     "C01": ("2/C01",
-            "Sequence/Source over a 15-kind element vocabulary, 6 bracketing/Source forms and flows of "
-            "symbolic ints are executed symbolically against a manual left-to-right composition that "
-            "does not use Sequence, Source, Run or flatten; ill-typed arguments must raise LenaTypeError "
+            "Sequence/Source over an 18-kind element vocabulary (RunIf kinds with a reference of their own), "
+            "6 bracketing/Source forms, empty nested Sequences at every position, reuse of the same object, "
+            "and flows of symbolic ints are executed symbolically against a manual left-to-right composition "
+            "that does not use Sequence, Source, Run or flatten; ill-typed arguments must raise LenaTypeError "
             "at construction; flatten keeps element identity and order.",
             "vocabulary of the harness; PyDeque stub; in the quick tier the context mode and the non-flat "
             "forms are tied to the parity of the kinds (stated in evidence.bounds).", CH),
@@ -59,8 +60,9 @@ CHECKS = {
             "a pull is a delivered value; weak-reference liveness is not claimed (tracer holds references).",
             CH),
     "C04": ("2/C04",
-            "Split.run / fill+compute / Zip over in-place mutating branches vs the same branch alone on a "
-            "deep copy; accumulator histories where every yielded context is poisoned and checked for "
+            "Split.run (with an optional Source branch among the mutators and a branch kind whose elements "
+            "share one user-supplied default object) / fill+compute / Zip of two or three in-place mutating "
+            "branches vs the same branch alone on a deep copy; accumulator histories where every yielded context is poisoned and checked for "
             "shared containers (object identity) against filled values, earlier yields and an unpoisoned twin.",
             "flows without pre-existing aliasing; Count.compute's documented update of the filled context "
             "is outside the statement.", CH),
@@ -105,7 +107,7 @@ CHECKS = {
             CH),
     "C03": ("2/C03",
             "Split.run / fill+compute / fill+request / __call__ and Zip are executed symbolically for "
-            "every branch list (8 branch kinds), bufsize, LenaStopFill index and flow of symbolic "
+            "every branch list (9 branch kinds incl. an explicit Sequence holding an accumulator), bufsize, LenaStopFill index and flow of symbolic "
             "ints inside the bound and compared with a scheduler transcribed from the docstring.",
             "branch vocabulary of the harness (bare fill/request element so C16 does not leak in); "
             "bounds in evidence.bounds.", CH),
@@ -132,7 +134,8 @@ CHECKS = {
             "jinja2 runs untraced on realised inputs; leaves from a finite domain where rendering / "
             "JSON realise them.", CH),
     "C16": ("2/C16",
-            "FillRequest.run, fill/request under every request schedule (one symbolic bit per fill) "
+            "FillRequest.run, fill/request under every request schedule (one symbolic bit per fill), "
+            "a single request after up to three buffered blocks, two live instances filled alternately, "
             "and Split around a FillRequest branch are executed symbolically against the per-block "
             "reference; two known findings carved out (see known_findings.json).",
             "BoundedList stub turns a never-returning call into a finite event; 'at most one block "
